@@ -10,5 +10,5 @@ print('|---|---|---|---|---|')
 print('\n'.join(rows))
 print()
 n = len(rows)
-first = sum(1 for r in rows if '| yes |' in r)
+first = sum(1 for r in rows if '| yes ' in r)
 print('%d seeded changes confirmed; %d detected by the checks as first built, %d only after strengthening the check (each strengthening is a wider alphabet / pool / family in the specification, described in the row), 0 left undetected.' % (n, first, n - first))
